@@ -81,7 +81,7 @@ def regex_member(run, mid, key, r, comp, N, variant=None, spec=None, states=True
         determinism(run, f"{tag}:det", key, auto.raw, FUNCS[2:], "dumped transition list of the compiled automaton", dict(spec or {"r": r}))
     t0 = time.time()
     try:
-        A.decide_equiv(run, ob, r, auto, N, variant, spec, timeout=timeout, cross=2)
+        A.decide_equiv(run, ob, r, auto, N, variant, spec, timeout=timeout, cross=0 if light else 2)
     except Exception as ex:  # noqa
         import traceback
         ob.set(INCONCLUSIVE, f"engine error {ex!r} {traceback.format_exc()[-300:]}")
